@@ -279,7 +279,7 @@ Proof.
   exists env. split; [exact Hin|]. split; assumption.
 Qed.
 
-(** with the repair of C05-F6 (rendered header values in the cache key): for every history *)
+(** the code as it is (with fix: d20d7cd for C05-F4 and fix: 4a30678 for C05-F6): for every history *)
 Theorem history_stateless_fixed f1 f2 h pre s post r :
   h = pre ++ s :: post ->
   nth_error (run_history f1 f2 true true h) (length pre) = Some r ->
@@ -311,11 +311,13 @@ Proof.
   apply andb_true_iff in G as [G1 G2]. apply result_eqb_eq in G1. rewrite G1, (IH l' G2). reflexivity.
 Qed.
 
-(** C05-F6 shows on exactly the histories on which keying the cache by the rendered url alone changes an answer *)
+(** C05-F6 showed (before 4a30678) on exactly the histories on which keying the cache by the rendered url alone
+    changes an answer *)
 Definition guard_F6 (f1 f2 : bool) (h : list kstep) : bool :=
   negb (list_eqb result_eqb (run_history f1 f2 true false h) (run_history f1 f2 true true h)).
 
-(** the code as it is: for histories without header-only templates, and for all on which C05-F6 does not show *)
+(** the code as it was before 4a30678: for histories without header-only templates, and for all on which C05-F6
+    does not show *)
 Theorem history_stateless f1 f2 h pre s post r :
   url_keyed h \/ guard_F6 f1 f2 h = false ->
   h = pre ++ s :: post ->
@@ -455,7 +457,7 @@ Close Scope string_scope.
     has been cached, a token naming tenant-b but signed with tenant-a's key is still rejected, and tenant-b's
     own tokens are still accepted (the seeded change C05-1 got both wrong) *)
 Example cache_cross_tenant :
-  run_history true true true false
+  run_history true true true true
     [exc_step true (exc_env 3 4) (exc_tok "tenant-a" "k1" 3);
      exc_step true (exc_env 3 4) (exc_tok "tenant-b" "k1" 3);
      exc_step true (exc_env 3 4) (exc_tok "tenant-b" "k1" 4)]
@@ -465,7 +467,7 @@ Proof. vm_compute. reflexivity. Qed.
 (** what the cache does change: after a rotation the cached key stays in use for its own url and kid (the old
     key's tokens pass, the new key's do not yet) unless the token has no kid or the cache is off *)
 Example cache_rotation :
-  run_history true true true false
+  run_history true true true true
     [exc_step true (exc_env 3 4) (exc_tok "tenant-a" "k1" 3);
      exc_step true (exc_env 4 4) (exc_tok "tenant-a" "k1" 3);
      exc_step true (exc_env 4 4) (exc_tok "tenant-a" "k1" 4);
@@ -498,11 +500,11 @@ Proof.
   simpl in Hin. destruct Hin as [<-|[<-|[<-|[]]]]; vm_compute in Hspec; discriminate.
 Qed.
 
-(** C05-F6: one key-set endpoint for two tenants, the tenant travels in a header templated with the token's
+(** C05-F6 as it was before 4a30678 (pinned): one key-set endpoint for two tenants, the tenant travels in a header templated with the token's
     issuer ({{ .TokenIssuer }}), the url is the same; both tenants use the kid k1 for different keys.  After
     tenant-a's key has been cached, a token that names tenant-b but is signed with tenant-a's key is accepted
     (the cache key has no rendered header values), although tenant-b's key set does not verify it; and
-    tenant-b's own token is refused.  With the repair both are judged against tenant-b's key set. *)
+    tenant-b's own token is refused.  The code as it is judges both against tenant-b's key set. *)
 Definition exc_hdr (cr : cred) : kstep :=
   {| s_cf := exc_cf; s_cache_on := true; s_ttl := -1; s_templated := true; s_tpl_url := false;
      s_env := exc_env 3 4; s_now := secs 1790000000; s_cred := cr |}.
